@@ -16,7 +16,7 @@ EXTENDS Naturals, Sequences, FiniteSets, TLC, Json
 
 CONSTANTS N,          \* number of jobs
           MaxList,    \* maximal length of one needs list
-          Targets,    \* subset of 0..N a needs entry may name (0 = dangling id)
+          Targets,    \* ids a needs entry may name: 1..N are the jobs, every other number (0, 9) is a dangling id
           AllowDup,   \* may an id be repeated inside one list
           Ascending   \* TRUE: only ascending lists (one representative per edge set)
 
